@@ -58,6 +58,11 @@ RECEIVERS = {
 OTHER_MODULES = ["file_manager.py", "data_operations.py", "filters.py", "integrity.py"]
 
 
+# MetadataManager methods other than refresh() that read the pointer or a metadata file: a read path that reaches one of them
+# from outside MetadataManager has a resolution the count of refresh() calls does not see
+OTHER_RESOLVERS = {"_current_version_info", "_read_version_hint", "_read_metadata_file", "_recover_version_from_files", "_parse_hint_content"}
+
+
 def add(a: Iv, b: Iv) -> Iv:
     return (a[0] + b[0], a[1] + b[1])
 
@@ -268,6 +273,10 @@ class Counter:
             if recv.startswith("self.metadata_manager") or recv.startswith("self.snapshot_manager"):
                 raise Unsupported(f"{cls}.{fn.name}: call through {recv}.{f.attr}")
             return ZERO
+        if target_cls == "MetadataManager" and cls != "MetadataManager" and f.attr in OTHER_RESOLVERS and self.primitive[1] == "refresh":
+            # a second way to learn what the pointer names, not counted by the refresh() count: fail closed
+            raise Unsupported(f"{cls}.{fn.name}: resolves the pointer through {recv}.{f.attr}() instead of refresh(); the resolution count "
+                              f"no longer counts pointer reads")
         callee = self.fn(target_cls, f.attr)
         if callee is None:
             if (target_cls, f.attr) == self.primitive:
